@@ -32,7 +32,7 @@ KMAX = 1e8
 
 def floors(tier):
     return {"gcp_judged": 3000, "outward_on_bound": 800, "breakpoints_crossed_inputs": 800, "c_checked": 1500,
-            "intercepted_calls": 200, "tie_inputs": 600, "inputs_with_theta_exactly_one": 40, "inputs_with_empty_memory_and_theta_not_one": 100, "grazing_inputs": 10000, "inputs_with_direction_exactly_orthogonal_to_the_memory": 300, "inputs_with_models_used_in_turn": 800, "grazing_inputs_after_crossed_breakpoints": 5000, "runs_with_objective_redefined": 40, "direct_calls_traced_through_a_debug_level_logger": 2000, "direct_calls_traced_through_an_info_level_logger": 1000, "runs_traced_through_a_debug_level_logger": 10, "runs_with_objective_redefined_between_checkpoint_and_restart": 15, "__nontrivial__": 200}
+            "intercepted_calls": 200, "tie_inputs": 600, "inputs_with_theta_exactly_one": 40, "inputs_with_empty_memory_and_theta_not_one": 100, "grazing_inputs": 10000, "inputs_with_direction_exactly_orthogonal_to_the_memory": 300, "inputs_with_models_used_in_turn": 800, "grazing_inputs_after_crossed_breakpoints": 5000, "runs_with_objective_redefined": 40, "inputs_through_bound_arrays_refilled_in_place_after_an_unconstrained_call": 500, "direct_calls_traced_through_a_debug_level_logger": 2000, "direct_calls_traced_through_an_info_level_logger": 1000, "runs_traced_through_a_debug_level_logger": 10, "runs_with_objective_redefined_between_checkpoint_and_restart": 15, "__nontrivial__": 200}
 
 
 def exhaustive(tier):
@@ -398,7 +398,21 @@ def call_gcp(x, g, lb, ub, mats):
     # the iteration number is a display argument; the solver passes 0 in the first iteration of a fresh run (empty memory) and the
     # checkpoint's number in the first iteration of a continuation (memory empty or not)
     it = [0, 1, 7][_LOGCFG["n"] % 3] if not has_pairs(mats) else [1, 3, 0][_LOGCFG["n"] % 3]
-    return get_cauchy_point(x.copy(), g.copy(), lb.copy(), ub.copy(), mats, it, iprint, None if lg is None else _LOGCFG[lg].logger)
+    # a caller that keeps one pair of bound arrays per dimension and refills them in place for every call (every other call here)
+    if _LOGCFG.get("force_bounds") is not None:
+        lbb, ubb = _LOGCFG["force_bounds"]  # the caller's own pair of arrays, refilled in place between two calls
+        lbb[:] = lb
+        ubb[:] = ub
+    elif _LOGCFG["n"] % 2 == 0:
+        nn = int(x.size)
+        if nn not in _LOGCFG.setdefault("bounds", {}):
+            _LOGCFG["bounds"][nn] = (np.empty(nn), np.empty(nn))
+        lbb, ubb = _LOGCFG["bounds"][nn]
+        lbb[:] = lb
+        ubb[:] = ub
+    else:
+        lbb, ubb = lb.copy(), ub.copy()
+    return get_cauchy_point(x.copy(), g.copy(), lbb, ubb, mats, it, iprint, None if lg is None else _LOGCFG[lg].logger)
 
 
 def is_nontrivial(x, g, lb, ub, ref):
@@ -506,6 +520,7 @@ def run(spec):
                 if scale != 1.0:
                     out.count("rescaled_inputs")
                 g[rng.random(n) < 0.15] = 0.0
+                g = np.where((g == 0) & (rng.random(n) < 0.5), -0.0, g)  # a zero component is as often -0.0 (e.g. -2*(a - x) at x == a) as +0.0
                 if rng.random() < 0.25:
                     # tied breakpoints: several variables reach their bounds at the same t
                     t0 = float(2.0 ** rng.integers(-3, 3)) / scale
@@ -515,7 +530,21 @@ def run(spec):
                         elif g[i] < 0 and np.isfinite(ub[i]) and x[i] < ub[i] and rng.random() < 0.7:
                             g[i] = (x[i] - ub[i]) / t0
                 out.count("random_inputs")
-                one_input(out, x, g, lb, ub, mats, B, f"random n={n} pairs={npairs}", dict(source="random"), keys)
+                if j % 5 == 2:
+                    # one pair of bound arrays kept by the caller: first describing an unconstrained problem, then refilled in place with
+                    # this input's box
+                    _LOGCFG["force_bounds"] = (np.empty(n), np.empty(n))
+                    try:
+                        xf = rng.standard_normal(n)
+                        one_input(out, xf, rng.standard_normal(n) + 0.1, np.full(n, -np.inf), np.full(n, np.inf), mats, B,
+                                  f"random n={n} pairs={npairs} (unconstrained, caller's bound arrays)", dict(source="random"), keys)
+                        if not out.violations:
+                            one_input(out, x, g, lb, ub, mats, B, f"random n={n} pairs={npairs} (caller's bound arrays refilled in place)", dict(source="random"), keys)
+                        out.count("inputs_through_bound_arrays_refilled_in_place_after_an_unconstrained_call")
+                    finally:
+                        _LOGCFG["force_bounds"] = None
+                else:
+                    one_input(out, x, g, lb, ub, mats, B, f"random n={n} pairs={npairs}", dict(source="random"), keys)
                 last = dict(n=n, pairs=npairs, x=x, g=g, lb=lb, ub=ub)
                 if out.violations:
                     break
